@@ -357,11 +357,11 @@ Definition three_of (lo : lowres) : sx :=
 (* (1 full want ((held delivered cl?) ...) rules?)
         -> per triple: (three getters of the S3 store on that response, class of s3_fetch (0 = decoded),
                         "the complete object arrived" as the spec sees it)
-   (2 retry meta_ok answers)            -> (put_chunk, put_chunk_noraise, stored_after)
+   (2 retry meta_ok answers)            -> (put_chunk, put_chunk_noraise, stored_after, attempts made)
    (3 retry (answers ...))              -> put_dask_array: (0 (result ...)) | (1 exn); then stored_after per block
    (4 retry bucket_answers marker_answers) -> (mark_complete, marker stored)
    (5 ign status)                        -> raise_for_status: () | (exn)
-   (6)                                   -> (s3_read_is_modelled, request_is_modelled, s3_put_is_modelled, rules) *)
+   (6)                                   -> (s3_read_is_modelled, request_is_modelled, s3_put_is_modelled, rules, force list) *)
 Definition wire_83 (x : sx) : sx :=
   match x with
   | L (I 1 :: b :: want :: L cases :: rules) =>
@@ -381,7 +381,8 @@ Definition wire_83 (x : sx) : sx :=
       let r := to_retry rc in
       let a := map to_answer (to_list answers) in
       L [of_outcome_unit (s3_put_chunk r (to_bool mok) a); of_outcome_noraise (s3_put_chunk_noraise r (to_bool mok) a);
-         of_bool (to_bool mok && stored_after (forcelist r) (status_retries r) a)]
+         of_bool (to_bool mok && stored_after (forcelist r) (status_retries r) a);
+         of_nat (if to_bool mok then request_attempts (forcelist r) (status_retries r) a else 0%nat)]
   | L [I 3; rc; blocks] =>
       let r := to_retry rc in
       let bl := map (fun b => map to_answer (to_list b)) (to_list blocks) in
@@ -403,6 +404,7 @@ Definition wire_83 (x : sx) : sx :=
   | L [I 6] =>
       L [of_bool s3_read_is_modelled; of_bool request_is_modelled; of_bool s3_put_is_modelled;
          I (match d_read detect_of_source with RdEmpty => 0 | RdNever => 1 end);
-         I (match d_readinto detect_of_source with RiCount => 0 | RiOwed => 1 | RiNever => 2 end)]
+         I (match d_readinto detect_of_source with RiCount => 0 | RiOwed => 1 | RiNever => 2 end);
+         of_Zs c08_s3_glitches]
   | _ => sx_err
   end.
